@@ -126,8 +126,8 @@ vh_free (void *p)
 
 /* ---------------------------------------------------------------- case data */
 #define MAXG 8
-#define MAXT 700
-#define MAXR 300
+#define MAXT 3000
+#define MAXR 3000
 #define MAXRHS 40
 #define MAXTEXT 8
 #define MAXH 4
